@@ -217,7 +217,17 @@ def _import_file(
         import_request_done(req, "bad_acq")
         return
 
-    file_name = path.relative_to(acq_name)
+    # The acquisition must be a proper ancestor of the path; the remainder
+    # is the file name.  (A detector returning the path itself would otherwise
+    # register a file called ".", and an unrelated name would raise ValueError.)
+    try:
+        file_name = path.relative_to(acq_name)
+    except ValueError:
+        file_name = None
+    if file_name is None or not file_name.parts:
+        log.warning(f'Rejecting acq path "{acq_name}": not a parent of "{path}"')
+        import_request_done(req, "bad_acq")
+        return
 
     # If a copy already exists, we're done
     if node.db.named_copy_tracked(acq_name, file_name):
